@@ -8,7 +8,7 @@ CHECKS = {
     "C05": dict(
         level="model_checking", design="DESIGN.md §3 C05",
         technique="CrossHair (z3) symbolic execution of mro.mro on symbolic class ids against a reference C3; solver-enumerated bounded hierarchies through the model against CPython type()",
-        text="Bounded model checking: for every ordered-base hierarchy of <=4 (quick) / <=5 (thorough) classes CrossHair exhausts the path tree of mro.mro/_merge run on symbolic class ids and of the model path (source -> System -> Class.mro/find/docsources/get_docstring, mro warnings) and every leaf agrees with a reference C3 / with CPython executing the same class statements. Nothing is claimed beyond 5 classes.",
+        text="Bounded model checking: for every ordered-base hierarchy of <=4 (quick) / <=5 (thorough) classes CrossHair exhausts the path tree of mro.mro/_merge run on symbolic class ids and of the model path (source -> System -> Class.mro/find/docsources/get_docstring, mro warnings) and every leaf agrees with a reference C3 / with CPython executing the same class statements; 4-class hierarchies are also spread over <=3 modules (7 placements x 3 import styles x 2 processing orders) and compared with CPython importing the same package. Nothing is claimed beyond 5 classes.",
         note="Trusted: CrossHair 0.0.110 + z3 exhaustion verdict; reference C3 validated against type() at import; CPython 3.12 as oracle. The model-path harness (class E) concretises the solver-chosen shape and runs pydoctor untraced: bounded-exhaustive, not symbolic.",
     ),
     "C13": dict(
@@ -50,7 +50,7 @@ CHECKS = {
     "C20": dict(
         level="model_checking", design="DESIGN.md §3 C20 (narrow)", engine="rx+xh",
         technique="z3 regex-theory inclusion between the quoting-detection regexes of the live _configparser and the grammar of Python string literals (strings of every length); CrossHair-exhausted quoting round trips, section names and unknown-key subsets",
-        text="Narrow claim: the quoting rules and the unknown-key filter only. K20a decides, for strings of every length, that every valid simple-quoted literal is detected, every valid triple-quoted literal is detected except two recorded classes (subtracted as languages after their witnesses replay), and nothing that is not lexically a simple-quoted literal is taken for quoted. K20b/c exhaust quoting round trips for texts of <=3 (4) characters over a 10-character alphabet in four styles, raw texts, TOML section names and all 256 known/unknown key subsets through ValidatorParser. Equivalence of every option across pyproject.toml / setup.cfg / pydoctor.ini / command line is NOT claimed (configargparse, toml, configparser and the file system are outside the engine's reach).",
+        text="Narrow claim: quoting rules, unknown-key filter, and file-vs-command-line equivalence for every option of the real parser over value tables with the file content passed in memory (K20d). K20a decides, for strings of every length, that every valid simple-quoted literal is detected, every valid triple-quoted literal is detected except two recorded classes (subtracted as languages after their witnesses replay), and nothing that is not lexically a simple-quoted literal is taken for quoted. K20b/c exhaust quoting round trips for texts of <=3 (4) characters over a 10-character alphabet in four styles, raw texts, TOML section names and all 256 known/unknown key subsets through ValidatorParser. Reading config files from disk / cwd lookup and the conversion of the namespace into Options are not claimed.",
         note="Trusted: z3 sequence theory, CPython re._parser, lib/rx2z3.py (validated against re on 26 vectors each run), my z3 rendering of the literal grammar, CrossHair exhaustion verdict.",
     ),
     "C12": dict(
